@@ -206,6 +206,18 @@ func Main(t *testing.T, property string, cases []Case, params map[string]any) {
 		t.Fatalf("case %q not found among %d cases", env.Only, len(cases))
 	}
 
+	// Development aid: VCHECK_MATCH=<substring> keeps only the cases whose id contains it (never set by the driver).
+	if m := os.Getenv("VCHECK_MATCH"); m != "" {
+		var kept []Case
+		for _, c := range cases {
+			if strings.Contains(c.ID, m) {
+				kept = append(kept, c)
+			}
+		}
+		cases = kept
+		res.TotalCases = len(cases)
+	}
+
 	var journal *os.File
 	if env.Out != "" {
 		var err error
